@@ -10,7 +10,7 @@
    statistics. *)
 From Coq Require Import List Bool String ZArith.
 From FM Require Import Base.Result Base.AstOp Model.Ast Model.FM Model.PFM Format.Xml Format.Ref
-     Proofs.FideFacts Proofs.RefFacts.
+     Proofs.FideFacts Proofs.RefFacts Proofs.C09Facts Format.Json Format.Glencoe Format.Afm.
 Import ListNotations.
 Local Open Scope list_scope.
 
@@ -42,3 +42,31 @@ Theorem C09_fide_no_constraints_section : forall m, fide_ok m = true -> ctcs m =
   exists x pm, fide_write m = Ok x /\ fide_read x = Ok pm /\ erase_fm pm = m.
 Proof. exact fide_no_constraints. Qed.
 Print Assumptions C09_fide_no_constraints_section.
+
+(* AFM: redundant parentheses anywhere in a constraint, absent sections *)
+Theorem C09_afm_parentheses : forall p e, afm_read_expr p (strip_parens e) = afm_read_expr p e.
+Proof. exact afm_read_strip_parens. Qed.
+Print Assumptions C09_afm_parentheses.
+Theorem C09_afm_no_attributes_section : forall rels cs,
+  afm_read_cst {| ad_rels := rels; ad_attrs := None; ad_ctcs := cs |}
+  = afm_read_cst {| ad_rels := rels; ad_attrs := Some []; ad_ctcs := cs |}.
+Proof. exact afm_read_no_attrs. Qed.
+Print Assumptions C09_afm_no_attributes_section.
+Theorem C09_afm_no_constraints_section : forall rels ats,
+  afm_read_cst {| ad_rels := rels; ad_attrs := ats; ad_ctcs := None |}
+  = afm_read_cst {| ad_rels := rels; ad_attrs := ats; ad_ctcs := Some [] |}.
+Proof. exact afm_read_no_ctcs. Qed.
+Print Assumptions C09_afm_no_constraints_section.
+
+(* Glencoe: keys the format does not define are ignored; n-ary terms are left folds *)
+Theorem C09_glencoe_extra_key : forall k v kv1 kv2,
+  String.eqb "features" k = false -> String.eqb "tree" k = false -> String.eqb "constraints" k = false ->
+  glencoe_read (VMap (kv1 ++ (k, v) :: kv2)) = glencoe_read (VMap (kv1 ++ kv2)).
+Proof. exact glencoe_read_extra_key. Qed.
+Print Assumptions C09_glencoe_extra_key.
+Theorem C09_glencoe_nary_terms : forall fuel fi ty o x xs n ns,
+  (ty = "AndTerm"%string /\ o = AND) \/ (ty = "OrTerm"%string /\ o = OR) \/ (ty = "XorTerm"%string /\ o = XOR) ->
+  glencoe_parse_ctc fuel fi x = Ok n -> Forall2 (fun y m => glencoe_parse_ctc fuel fi y = Ok m) xs ns ->
+  glencoe_parse_ctc (S fuel) fi (nary_term ty (x :: xs)) = Ok (fold_left (fun acc y => bin o acc y) ns n).
+Proof. exact glencoe_nary_fold. Qed.
+Print Assumptions C09_glencoe_nary_terms.
